@@ -540,6 +540,9 @@ func (ex *Exec) enterLoop(st *State, fc *FnCtx, li *loopInfo, pred *ssa.BasicBlo
 	for _, cl := range invs {
 		st.assume(evalInv(cl))
 	}
+	if ct != nil {
+		ex.assumeUses(st, env, ct.LoopUse[li.ord])
+	}
 	lc := &loopCtx{}
 	if len(decs) > 0 {
 		lc.variant = evalDec()
@@ -863,4 +866,28 @@ func fnPkg(fn *ssa.Function) *types.Package {
 		return o.Pkg.Pkg
 	}
 	return nil
+}
+
+
+// assumeUses assumes instances of named axioms / lemmas (`use name(args)`).
+// Only applications of macros declared `axiom` or `lemma` are accepted.
+func (ex *Exec) assumeUses(st *State, env *SpecEnv, uses []*Clause) {
+	for _, cl := range uses {
+		name := cl.Text
+		if i := strings.Index(name, "("); i > 0 {
+			name = strings.TrimSpace(name[:i])
+		}
+		m, ok := ex.cs.Macros[name]
+		if !ok || (m.Kind != "axiom" && m.Kind != "lemma") {
+			ex.specError(cl, fmt.Errorf("use: %s is not a declared axiom or lemma", name))
+			continue
+		}
+		t, err := env.evalBool(cl.Text)
+		if err != nil {
+			ex.specError(cl, err)
+			continue
+		}
+		ex.usedAxioms[m.Kind+":"+name] = true
+		st.assume(t)
+	}
 }
